@@ -405,7 +405,7 @@ def jobs_for(prop, tier):
         return jobs_simplify(tier)
     if prop == 'C07':
         return [j for j in jobs_option_below(tier) if j[1][3] == 'combinations']
-    return {'C01': jobs_c01, 'C03': jobs_c03, 'C04': jobs_c04, 'C06': jobs_c06, 'C05': jobs_c05, 'C09': jobs_c09}.get(prop, lambda t: [])(tier)
+    return {'C01': jobs_c01, 'C03': jobs_c03, 'C04': jobs_c04, 'C06': jobs_c06, 'C08': jobs_c08, 'C05': jobs_c05, 'C09': jobs_c09}.get(prop, lambda t: [])(tier)
 
 
 # ------------------------------------------------------------------------------------------------ C01: getitem_next of list nodes
@@ -1265,4 +1265,111 @@ def jobs_simplify(tier):
     for oc, op in outers:
         for ic, ip in inners:
             js.append((h_simplify_option, (oc, op, ic, ip), 600))
+    return js
+
+
+# ------------------------------------------------------------------------------------------------ C08: IndexedArray / IndexedOptionArray mergemany (concatenation of indexed nodes)
+@guard
+def h_indexed_mergemany(specs):
+    """mergemany of indexed / option nodes (what ak.concatenate does along axis 0): the result lists every entry of the first array, then of the
+    second, ...: a missing entry stays missing, a present entry is still the same element of its own content, and the result is option-type
+    as soon as one operand is (no negative index in a non-option result).  specs: ((class, missing pattern), ...), first = receiver"""
+    specs = [(c, tuple(map(bool, p))) for c, p in specs]
+    nc = NodeCtx(['IA', 'BMA', 'BIT', 'UMA', 'IDX', 'CNT', 'UTL', 'KD', 'IDS', 'EA'], [], unwind=max(12, sum(len(p) for c, p in specs) + 2 * len(specs) + 8))
+    BASE = 1 << 32
+    contents, nodes, idxs = [], [], []
+    for k, (cls, pat) in enumerate(specs):
+        if k == 0:
+            cp, clen = nc.content0, nc.lencontent
+        else:
+            clen = nc.m.bv('lencontent%d' % k)
+            nc.m.assume(clen >= 0, clen <= 2 ** 20)
+            kk = z3.BitVec('k!', 64)
+            cp = nc.new_content_in(nc.m.mem, 'content_%d' % k, clen, z3.Lambda([kk], kk + k * BASE), const=True)
+        node, idx = build_indexed(nc, cls, pat, cp, clen, 'node%d' % k)
+        contents.append((cp, clen)); nodes.append(node); idxs.append(idx)
+    nc.m.assume(nc.lencontent <= 2 ** 20)
+
+    def s_content_mergemany(eng, fr, ins, st, name, argv):
+        sret, selfp, vec = argv
+        first, finfo = nc.content_info(selfp, st, eng)
+        o = st.mem.o[vec.obj]
+        b, e = o.cells[vec.off][0], o.cells[vec.off + 8][0]
+        parts = [finfo]
+        bc = [(g, q) for g, q in nodeh.ptr_cases(b) if q.obj is not None]
+        ec = [(g, q) for g, q in nodeh.ptr_cases(e) if q.obj is not None]
+        if bc:
+            qb, qe = bc[0][1], ec[0][1]
+            buf = st.mem.o[qb.obj]
+            nbytes = nodeh.concrete(nodeh.BV(qe.off) - nodeh.BV(qb.off) if isinstance(qe.off, int) else qe.off - qb.off, 'size of the vector of contents to merge')
+            if isinstance(buf, nodeh.RecObj):
+                ptrs = [buf.cells[qb.off + 16 * i][0] for i in range(nbytes // 16)]
+            else:
+                ptrs = [buf.arr[nodeh.concrete(qb.off, 'vector offset') + 2 * i] for i in range(nbytes // 2)] if False else [eng.load(st, Ptr(qb.obj, qb.off + 2 * i), '%"class.awkward::Content"*', fr.mod, 'stub') for i in range(nodeh.concrete(qe.off - qb.off, 'vector size') // 2)]
+            for p in ptrs:
+                parts.append(nc.content_info(p, st, eng)[1])
+        kk = z3.BitVec('k!', 64)
+        total, body, cum = BV(0), BV(-7), []
+        for info in parts:
+            cum.append(total)
+            total = total + info['length']
+        for info, c0 in zip(parts, cum):          # later parts outermost: position kk belongs to the last part whose start is <= kk
+            body = z3.If(kk >= c0, z3.Select(info['atoms'], kk - c0), body)
+        nc._ret(st, sret, nc.fresh_content(eng, st, z3.simplify(total), z3.Lambda([kk], body), derived='merged'))
+        return None
+    nc.m.eng.stubs['vf$slot%d' % nc.slot('9mergemanyERKSt6vector')] = s_content_mergemany
+    # others: std::vector<ContentPtr> as a record of (ptr, ctrl) pairs
+    cells = {}
+    for i, nd in enumerate(nodes[1:]):
+        cells[16 * i] = (nd, 8); cells[16 * i + 8] = (NULL, 8)
+    nc.m.record('othersbuf', cells, const=True)
+    nb = 16 * (len(nodes) - 1)
+    others = nc.m.record('others', {0: (Ptr('othersbuf', 0), 8), 8: (Ptr('othersbuf', nb), 8), 16: (Ptr('othersbuf', nb), 8)}, const=True)
+    nc.m.record('ret', {})
+    mangled, bits, T, option = INDEXED[specs[0][0]]
+    cands = [f for mod_ in nc.m.eng.mods for f in mod_.func_src if f.startswith('_ZNK7awkward14IndexedArrayOfI%sLb%dEE9mergemanyE' % (T, 1 if option else 0))]
+    if not cands:
+        raise Unsupported('mergemany not found in the IR')
+    out = nc.m.call(cands[0], [Ptr('ret', 0), nodes[0], others])
+    obls = [('mergemany does not raise', out.raised)]
+    want = []
+    for k, ((cls, pat), idx) in enumerate(zip(specs, idxs)):
+        for i, miss in enumerate(pat):
+            want.append(NONE if miss else Elem(idx[i] + k * BASE))
+    any_option = any(INDEXED[c][3] for c, p in specs)
+    for g, res in nodeh.decode_cases(nc, out.mem, nc.m.cell('ret', 0)):
+        if res is None:
+            obls.append(('a result is returned', z3.And(g, z3.Not(out.raised))))
+            continue
+        obls += [(nm, z3.And(g, c)) for nm, c in compare(value(res), want)]
+        if res['cls'] == 'indexed':
+            for i, t in enumerate(res.get('index', [])):
+                obls.append(('a non-option result has no negative index (entry %d)' % i, z3.And(g, t < 0)))
+
+    def replay(model, ent):
+        ev = lambda t: model.eval(t, model_completion=True).as_signed_long()
+        tok = {'IndexedArray32': 'indexed32', 'IndexedArrayU32': 'indexedU32', 'IndexedArray64': 'indexed64', 'IndexedOptionArray32': 'option32', 'IndexedOptionArray64': 'option64'}
+        prog, exp = '', []
+        for k, ((cls, pat), idx) in enumerate(zip(specs, idxs)):
+            iv = [ev(x) for x in idx]
+            lc = max([ev(contents[k][1]), 1] + [v + 1 for v in iv])
+            if lc > 100:
+                return False, 'content too long to replay', {}
+            prog += 'i64 %s %s %s ' % (fullnative.ints([1000 * k + j for j in range(lc)]), tok[cls], fullnative.ints(iv))
+            exp += [None if v < 0 else 1000 * k + v for v in iv]
+        prog += 'mergemany %d' % (len(specs) - 1)
+        return akrun_check(prog, exp, 'mergemany of %s' % [(c, ''.join('N' if x else 'v' for x in p)) for c, p in specs])
+    return mdischarge(nc.m, 'mergemany %s' % ' + '.join('%s[%s]' % (c, ''.join('N' if x else 'v' for x in p)) for c, p in specs), obls, [], replay=replay,
+                      prefer=[c[1] <= 6 for c in contents], extra=dict(bounds='%d operands, missing patterns concrete (case split), index values and content lengths symbolic' % len(specs)))
+
+
+def jobs_c08(tier):
+    A = [('IndexedOptionArray64', (0, 1)), ('IndexedArray64', (0, 0)), ('IndexedOptionArray32', (1, 0, 0)), ('IndexedArray32', (0,)), ('IndexedArrayU32', (0, 0))]
+    js = []
+    for a in A:
+        for b in A:
+            js.append((h_indexed_mergemany, ((a, b),), 600))
+    trip = [(A[2], A[0], A[1]), (A[0], A[2], A[3]), (A[1], A[2], A[0])] if tier == 'quick' else [(a, b, c) for a in A[:3] for b in A[:4] for c in A[:3]]
+    for t in trip:
+        js.append((h_indexed_mergemany, (t,), 600))
     return js
